@@ -891,8 +891,11 @@ func (p *Parser) parseNameString() ([]byte, parseResult) {
 
 	switch next {
 	case 0x00: // NullName (null string or a name terminator)
-		startOffset = p.r.Offset()
-		// return empty string
+		// The terminator is not part of the returned name but any prefix
+		// chars are (e.g. a lone "\" refers to the root scope).
+		str.Len = int(p.r.Offset()-startOffset) - 1
+		str.Cap = str.Len
+		return *(*[]byte)(unsafe.Pointer(&str)), res
 	case 0x2e: // DualNamePath := DualNamePrefix NameSeg NameSeg
 		endOffset = p.r.Offset() + uint32(amlNameLen*2)
 		if endOffset > p.r.pkgEnd {
